@@ -96,3 +96,107 @@ func c15ReadyFirst() {
 		simrt.Failf("C15.stuck", "every one of the %d targets has received the value and the publish has not returned", n)
 	}
 }
+
+// C15/shared-context: 2..4 subscriptions under one key that share one context (the same value, or
+// WithValue children of it), some with a receiver and some without; one publish; the shared context is
+// cancelled while the publish waits. The publish returns (every subscription it still waited for has had
+// its context cancelled), every target with a receiver got the value at most once, and the registry can be
+// written to afterwards.
+func init() {
+	Register(Harness{Prop: "C15", Name: "C15/shared-context", Run: c15SharedContext, Weight: 1})
+}
+
+type c15CtxKey struct{}
+
+func c15SharedContext() {
+	var nf bigbuff.Notifier
+	shared, cancel := context.WithCancel(context.Background())
+	defer cancel()
+	n := simrt.DrawRange(2, 4)
+	targets := make([]chan int, n)
+	hasRecv := make([]bool, n)
+	got := make([]int, n)
+	absent := 0
+	for i := range targets {
+		targets[i] = make(chan int)
+		ctx := shared
+		if simrt.Chance(1, 3) {
+			ctx = context.WithValue(shared, c15CtxKey{}, i)
+		}
+		if simrt.Chance(1, 2) {
+			nf.SubscribeContext(ctx, "k", targets[i])
+		} else {
+			c := nf.SubscribeCancel(ctx, "k", targets[i])
+			defer c()
+		}
+		hasRecv[i] = simrt.Chance(1, 3)
+		if !hasRecv[i] {
+			absent++
+		}
+	}
+	stop := make(chan struct{})
+	for i := range targets {
+		if !hasRecv[i] {
+			continue
+		}
+		i := i
+		go func() {
+			for {
+				select {
+				case <-targets[i]:
+					got[i]++
+				case <-stop:
+					return
+				}
+			}
+		}()
+	}
+	returned := false
+	go func() {
+		if simrt.Chance(1, 2) {
+			nf.Publish("k", 7)
+		} else {
+			ctx, c := context.WithCancel(context.Background())
+			defer c()
+			nf.PublishContext(ctx, "k", 7)
+		}
+		returned = true
+	}()
+	if simrt.Chance(1, 2) {
+		simrt.Quiesce(-1)
+		if absent > 0 && returned {
+			simrt.Failf("C15.returned-early", "a publish returned while %d subscribed targets, nobody receiving and their context live, have not been sent the value", absent)
+			return
+		}
+	} else {
+		simrt.Stall(simrt.Draw(12))
+	}
+	cancel()
+	simrt.Quiesce(-1)
+	if simrt.Failed() {
+		return
+	}
+	if !returned {
+		simrt.Failf("C15.stuck", "quiescent: %d subscriptions share one context (%d of their targets have no receiver), that context was cancelled while the publish waited, and the publish has not returned: it returns once each subscription has received the value or had its context cancelled", n, absent)
+		return
+	}
+	for i := range got {
+		if got[i] > 1 {
+			simrt.Failf("C15.duplicate", "target %d received the value of one publish %d times", i, got[i])
+			return
+		}
+	}
+	// the registry is writable again (no lock left behind)
+	done := false
+	go func() {
+		extra := make(chan int, 1)
+		nf.Subscribe("k", extra)
+		nf.Unsubscribe("k", extra)
+		done = true
+	}()
+	simrt.Quiesce(-1)
+	close(stop)
+	if !done && !simrt.Failed() {
+		simrt.Failf("C15.stuck", "after the publish returned, Subscribe/Unsubscribe of a new target has not returned at quiescence")
+	}
+}
